@@ -373,6 +373,12 @@ def witnesses(pm: ProgramModel, ctx: Ctx) -> None:
         ctcs = [k1, k2] if order == 0 else [k2, k1]
         if edit == "dropctc":
             ctcs = [k1]
+        if edit in ("twice-first", "twice-second"):
+            # a constraint stated twice (readers keep both): the two variants have the same distinct constraints
+            # and the same number of constraints, and differ by a single-operand edit of one of them
+            k3 = mb.constraint("k3", mb.node(op("REQUIRES"), mb.node("x"), mb.node("u"))) if edit == "twice-first" else \
+                mb.constraint("k3", mb.node(op("OR"), mb.node(op("NOT"), mb.node("O")), mb.node("v")))
+            ctcs = [k1, k3, k2] if order == 0 else [k2, k3, k1]
         return mb.model(R, ctcs)
     m0 = model(0)
     for o in (1, 2):
@@ -382,6 +388,12 @@ def witnesses(pm: ProgramModel, ctx: Ctx) -> None:
     edited_after_use("FeatureModel:constraint-operator", mm1, mm2,
                      lambda m: m._f["ctcs"][0]._f["_ast"]._f["root"]._f.__setitem__("data", op("EXCLUDES")),
                      "model one of whose constraints is changed in place", mw)
+    must_equal("C20-WITNESS", "FeatureModel:repeated-constraint/perm", model(0, "twice-first"), model(1, "twice-first"),
+               "a model with a constraint stated twice and its order-permuted copy", mw)
+    must_differ("FeatureModel:which-constraint-is-repeated", model(0, "twice-first"), model(0, "twice-second"),
+                "models with the same distinct constraints, a different one of them stated twice", mw)
+    must_differ("FeatureModel:repeated-vs-once", model(0, "twice-first"), m0,
+                "a model with a constraint stated twice vs once", mw)
     for edit in ("rename", "root", "card", "regroup", "move", "operator", "operand", "dropctc"):
         must_differ(f"FeatureModel:{edit}", m0, model(0, edit), f"models differing by edit '{edit}'", mw)
         must_differ(f"FeatureModel:{edit}/perm", model(1), model(0, edit),
